@@ -1,5 +1,184 @@
-"""C11 enumeration of every joint kill point of small worlds (filled in below)."""
+"""C11, fault_enumeration part: every joint kill point of small seeded worlds.
+
+For a world the *trace run* (lazy writer, no kill) lists every solver-loop seam of the first
+lifetime.  The kill-point space of the world is then
+
+    async:  seam x writer phase in {W0..W4}   (phase only where a save is in flight)
+            x perturbation in {none, tmp_subset (uncommitted temp dir), partial_delete (W3)}
+    sync:   seam  +  (save s, gate in {item, step, delete}) inside every save
+            x the applicable perturbations
+    both:   construction x {none, config.yaml truncated, config.yaml old}
+
+and every point of it is executed: lifetime 0 is killed there, lifetime 1 restores, continues
+to the end of the budget and is judged by the C11 oracles.
+"""
+
+from __future__ import annotations
+
+import os
+import random
+import shutil
+
+from . import plan as P
+
+PHASES = ["W0", "W1", "W2", "W3", "W4"]
+
+
+def world_for(seed: int, tier: str) -> tuple[dict, int]:
+    rng = random.Random(seed)
+    cls = rng.choice(P.DET_SOLVERS)
+    prob = P.draw_problem(rng, need_anchor=cls in ("RVI", "PER"))
+    prob["n"] = rng.randint(3, 8)
+    sol = P.draw_solver(rng, cls, prob["n"], never_converge=True, shuffle=False)
+    if cls == "PI":
+        sol["kw"]["max_eval_iter"] = rng.choice([1, 2, 3])
+    T = rng.randint(5, 7) if tier == "quick" else rng.randint(6, 12)
+    f = rng.randint(1, 3)
+    m = rng.randint(1, 2)
+    return {"problem": prob, "solver": sol, "ckpt": {"f": f, "m": m, "async": rng.random() < 0.7}}, T
+
+
+def list_killpoints(seed: int, tier: str) -> dict:
+    """Runs in a worker: trace the world and return every kill-point plan."""
+    from . import cases
+    from . import props as Q
+    from .world import execute
+
+    world, T = world_for(seed, tier)
+    root = cases.scratch_root()
+    try:
+        ctl = Q.run_control(world, T, root)
+        if not ctl.ok:
+            return {"seed": seed, "world": world, "error": f"control failed: {ctl.exc} {ctl.msg}", "plans": []}
+        trace_plan = {"prop": "C11", "world": world, "Tmax": T, "lifetimes": [{"route": "construct", "ops": [{"op": "solve_to", "it": T}], "writer": {"mode": "lazy"}}]}
+        run = execute(trace_plan, os.path.join(root, "trace"))
+        h = run.hist["lifetimes"][0]
+        seams = [tuple(e) for e in h["events"] if e[0] in ("sweep", "save_enter", "save_exit", "solve_return")]
+        started = [s["step"] for s in h["saves"] if s["started"]]
+    finally:
+        shutil.rmtree(root, ignore_errors=True)
+    asyn = world["ckpt"]["async"]
+    points = []
+    for mode in ("none", "empty", "old"):
+        pert = {"kind": "none"} if mode == "none" else {"kind": "config_trunc", "mode": mode}
+        points.append({"seam": ["construct"], "phase": "W0", "perturb": pert})
+    inflight = False
+    seen_saves = set()
+    for sm in seams:
+        if sm[0] == "save_exit" and sm[1] in started and sm[1] not in seen_saves:
+            inflight = True
+            seen_saves.add(sm[1])
+        if asyn and inflight:
+            for ph in PHASES:
+                perts = ["none"]
+                if ph in ("W0", "W1", "W2"):
+                    perts += ["tmp_subset", "tmp_trunc"]
+                if ph == "W3":
+                    perts += ["partial_delete"]
+                for k in perts:
+                    points.append({"seam": list(sm), "phase": ph, "perturb": {"kind": k, "pseed": len(points)}})
+        else:
+            points.append({"seam": list(sm), "phase": "W0", "perturb": {"kind": "none"}})
+    if not asyn:
+        for s in started:
+            for gate in ("item", "step", "delete"):
+                perts = ["none", "tmp_subset"] if gate in ("item", "step") else ["none", "partial_delete"]
+                for k in perts:
+                    points.append({"seam": ["save_inside", s, gate], "phase": "W0", "perturb": {"kind": k, "pseed": len(points)}})
+    plans = []
+    for c in points:
+        plans.append(
+            {
+                "prop": "C11",
+                "seed": seed,
+                "devices": 1,
+                "world": world,
+                "Tmax": T,
+                "enumerated": True,
+                "lifetimes": [
+                    {"route": "construct", "ops": [{"op": "solve_to", "it": T}], "writer": {"mode": "lazy"}, "crash": c},
+                    {"route": "restore", "fallback": True, "ops": [{"op": "solve_to", "it": T}, {"op": "wait"}], "writer": {"mode": "eager"}},
+                ],
+            }
+        )
+    return {"seed": seed, "world": world, "T": T, "seams": len(seams), "saves": len(started), "plans": plans}
 
 
 def run(pools, tier, verif_seed, deadline, known):
-    return {}
+    import time
+
+    from .check import split_known
+
+    n_worlds = 2 if tier == "quick" else 48
+    worlds = []
+    futs = [pools.submit_custom(1, "mdpsim.enum_c11.list_killpoints", P.run_seed("C11-enum", verif_seed, i), tier) for i in range(n_worlds)]
+    out = {"violations": [], "known": {}, "evaluations": 0, "distinct_nontrivial": 0, "samples": [], "x_enumeration": {"worlds": []}}
+    all_done = True
+    fired = {}
+    for f in futs:
+        try:
+            w = f.result(timeout=600)
+        except BaseException as e:  # noqa: BLE001
+            out["x_enumeration"]["worlds"].append({"error": f"listing failed: {e}"})
+            all_done = False
+            continue
+        if w.get("error"):
+            out["x_enumeration"]["worlds"].append({"seed": w["seed"], "error": w["error"]})
+            all_done = False
+            continue
+        if deadline is not None and time.time() > deadline - 30:
+            all_done = False
+            out["x_enumeration"]["worlds"].append({"seed": w["seed"], "skipped": "wall cap"})
+            continue
+        pf = [(p, pools.submit_case(1, "C11", w["seed"], p)) for p in w["plans"]]
+        done_pts, bad_pts, herr = 0, 0, 0
+        for p, fu in pf:
+            try:
+                r = fu.result(timeout=600)
+            except BaseException as e:  # noqa: BLE001
+                r = {"verdict": "harness_error", "error": str(e)}
+            if r["verdict"] == "harness_error":
+                herr += 1
+                continue
+            done_pts += 1
+            out["evaluations"] += 1
+            if r.get("nontrivial"):
+                out["distinct_nontrivial"] += 1
+            for k, v in (r.get("stats") or {}).items():
+                if k.startswith(("kill@", "perturb/")):
+                    fired[k] = fired.get(k, 0) + v
+            if r["verdict"] == "violation":
+                real, kn = split_known("C11", r["violations"], known)
+                for v, k in kn:
+                    out["known"][k["id"]] = out["known"].get(k["id"], 0) + 1
+                if real:
+                    bad_pts += 1
+                    r["devices"] = 1
+                    out["violations"].append((r, real))
+        complete = done_pts == len(w["plans"]) and herr == 0
+        all_done = all_done and complete
+        out["x_enumeration"]["worlds"].append(
+            {
+                "seed": w["seed"],
+                "solver": w["world"]["solver"]["cls"],
+                "ckpt": w["world"]["ckpt"],
+                "n_states": w["world"]["problem"]["n"],
+                "T": w["T"],
+                "seams": w["seams"],
+                "saves": w["saves"],
+                "kill_points": len(w["plans"]),
+                "executed": done_pts,
+                "violating": bad_pts,
+                "harness_errors": herr,
+                "exhaustive": complete,
+            }
+        )
+        if len(out["samples"]) < 2 and w["plans"]:
+            out["samples"].append({"enumerated_world": w["world"], "T": w["T"], "kill_points": len(w["plans"]), "first_kill_point": w["plans"][0]["lifetimes"][0]["crash"], "last_kill_point": w["plans"][-1]["lifetimes"][0]["crash"]})
+        if herr:
+            out.setdefault("harness_errors", 0)
+            out["harness_errors"] += herr
+    out["exhaustive"] = bool(all_done and out["x_enumeration"]["worlds"])
+    out["x_enumeration"]["faults_fired"] = fired
+    out["rule"] = "; plus enumeration: every kill point (seam x writer phase x perturbation, see x_enumeration) of the listed small worlds, one evaluation per kill point; 'exhaustive' refers to these bounded spaces"
+    return out
